@@ -1,3 +1,6 @@
+#[cfg(feature = "verif-keyset")]
+use crate::utils::verif_keyset::BTreeSet;
+#[cfg(not(feature = "verif-keyset"))]
 use alloc::collections::BTreeSet;
 use core::fmt::{self, Debug};
 use core::ops::{Deref, DerefMut};
